@@ -184,6 +184,10 @@ KANI = {
         K('proofs::round_up_grid', 'complete', 'round_price_up: tick 1..=10, EVERY f64 p with 0 <= p <= 2^32-11: result on the grid, within one tick above and less than 1 below p (measured ~9 min)', ['C16.rounding'], tier='thorough'),
         K('agents::helper_buy_limit', 'complete', 'place_buy_limit_order (real body, every distribution, every generator, mid a half-integer in [1, 1e6], tick 1..=10): Ok, price on grid and <= mid, configured volume and trader', ['C16.buy_below_mid']),
         K('agents::helper_sell_limit', 'complete', 'place_sell_limit_order (same domain): price >= mid, configured volume and trader, on grid unless clamped to Price::MAX', ['C16.sell_above_mid']),
+        K('float_lemmas::unit_draw_f32', 'complete', 'rand: rng.gen::<f32>() lies in [0, 1) for EVERY generator output (the axiom unit_draw_f32 of the Verus unit agents)', ['C16.activity']),
+        K('float_lemmas::unit_draw_f64', 'complete', 'rand: rng.gen::<f64>() lies in [0, 1) for EVERY generator output (the axiom unit_draw_f64 of the Verus unit agents)', ['C16.activity']),
+        K('float_lemmas::below_one_below_threshold_f32', 'complete', 'for all f32 u, p: u < 1 <= p implies u < p and not u >= p (axiom below_one_below_threshold_f32)', ['C16.activity']),
+        K('float_lemmas::below_one_below_threshold_f64', 'complete', 'for all f64 u, p: u < 1 <= p implies u < p and not u >= p (axiom below_one_below_threshold_f64)', ['C16.activity']),
         K('agents::cancel_live_orders_rules', 'bounded', 'cancel_live_orders (real body; Env::order_status / cancel_order stubbed by their contracts; every status pair, every generator): only listed Active orders are cancelled, p >= 1 cancels all, p == 0 cancels none', ['C16.cancel_rules'], bound='two orders in the list; unwind 12'),
         K('agents::noise_update_rules', 'bounded', 'NoiseAgent::update (real body; callees stubbed by recording contracts; every generator): p in {0} u [1, inf) gives exactly the documented number of instructions with the configured volume and the own trader id', ['C16.activity'], bound='one trader, one call; unwind 12'),
         K('market_agents::helper_buy_limit_market', 'complete', 'place_buy_limit_order_market (real body, every distribution / generator): Ok, own asset, price on grid and <= mid, configured volume and trader', ['C16.buy_below_mid']),
@@ -195,6 +199,8 @@ KANI = {
         K('agents::helper_sell_limit_always_on_grid', 'complete', 'place_sell_limit_order with an arbitrary finite draw submits an on-grid price (expected to fail: known finding)', ['C16.clamp_finding']),
     ],
     'C17': [
+        K('float_lemmas::unit_draw_f64', 'complete', 'rand: rng.gen::<f64>() lies in [0, 1) for EVERY generator output (the axiom unit_draw_f64 of the Verus unit agents)', ['C17.activity']),
+        K('float_lemmas::below_one_below_threshold_f64', 'complete', 'for all f64 u, p: u < 1 <= p implies u < p and not u >= p (axiom below_one_below_threshold_f64)', ['C17.activity']),
         K('agents::momentum_falling_sells', 'bounded', 'MomentumAgent::update twice with a falling mid (saturated demand): exactly one SELL market order of the configured volume by the own trader', ['C17.sells_when_falling'], bound='one trader, two calls, decay 1, demand 5, scale 0.5, drop in 6..=1000; tanh replaced by a sign-preserving saturating model; unwind 12'),
         K('agents::momentum_rising_buys', 'bounded', 'rising mid: exactly one BUY market order (plus one buy limit order when the order ratio is >= 1)', ['C17.buys_when_rising'], bound='as above; rise in 6..=1000'),
         K('agents::momentum_flat_nothing', 'bounded', 'unchanged mid (M == 0): nothing is submitted', ['C17.flat'], bound='as above'),
